@@ -22,7 +22,7 @@ Syntax (no spaces inside a token):
          comp(v<n>,l,f,m)
   props  {k<n>:e,…}          labels [n,…]          np (v<n>|_,labels,props)
   clause U(e,v<n>) | MN(v<n>,labels,props) | MR(v<a>,labels,v<r>,<ty>,v<b>,labels) | W(e)
-       | WI([v<n>,…],{v<n>:e,…}) | C(path,…) | MG(np,[set,…],[set,…]) | S(set,…) | RM(rem,…)
+       | WI([v<n>,…],{v<n>:e,…}) | C(path,…) | MG(np,[set,…],[set,…]) | MP(np,<ty>,np) | S(set,…) | RM(rem,…)
        | D(0|1,v<n>,…)
   path   np | np>ty props>np | np<ty props<np       e.g. (v0,[0],{})>3{k0:#I1}>(_,[],{})
   set    p(v<n>,k<m>,e) | a(v<n>,e) | m(v<n>,e) | l(v<n>,<label>)     rem p(v,k) | l(v,label)
@@ -220,6 +220,9 @@ def clauseP : P Clause := do
     let om ← sepBy setItemP ']'
     expect ')'
     pure (.merge p oc om)
+  | "MP" => do
+    let a ← npP; expect ','; let ty ← natP; expect ','; let b ← npP; expect ')'
+    pure (.mergeRel a ty b)
   | "S" => do pure (.set (← sepBy setItemP ')'))
   | "RM" => do pure (.remove (← sepBy remItemP ')'))
   | "D" => do
